@@ -10,7 +10,10 @@ import (
 	"sort"
 	"strings"
 
+	"golang.org/x/tools/go/callgraph/cha"
+	"golang.org/x/tools/go/callgraph/vta"
 	"golang.org/x/tools/go/ssa"
+	"golang.org/x/tools/go/ssa/ssautil"
 )
 
 // staticCallee returns the statically known callee of a call (function, method or closure).
@@ -531,6 +534,9 @@ func callsIn(fn *ssa.Function) []ssa.CallInstruction {
 // reachableFuncs returns the repository functions reachable from the roots through static calls,
 // closures created, go and defer statements (the quick-tier call graph).
 func (p *Prog) reachableFuncs(roots ...*ssa.Function) map[*ssa.Function]bool {
+	if fullSSABodies {
+		return p.reachableFuncsVTA(roots...)
+	}
 	seen := map[*ssa.Function]bool{}
 	var visit func(fn *ssa.Function)
 	visit = func(fn *ssa.Function) {
@@ -595,4 +601,61 @@ func refs(v ssa.Value) []ssa.Instruction {
 		return nil
 	}
 	return *r
+}
+
+// reachableFuncsVTA (thorough tier): repository functions reachable from the roots in the VTA
+// call graph of the whole program (interface and function-value calls resolved; paths may pass
+// through dependency code), united with the static closure.
+func (p *Prog) reachableFuncsVTA(roots ...*ssa.Function) map[*ssa.Function]bool {
+	if p.cg == nil {
+		all := ssautil.AllFunctions(p.SSA)
+		p.cg = vta.CallGraph(all, cha.CallGraph(p.SSA))
+	}
+	seen := map[*ssa.Function]bool{}
+	out := map[*ssa.Function]bool{}
+	var visit func(fn *ssa.Function)
+	visit = func(fn *ssa.Function) {
+		if fn == nil || seen[fn] {
+			return
+		}
+		seen[fn] = true
+		root := fn
+		for root.Parent() != nil {
+			root = root.Parent()
+		}
+		inRepo := root.Pkg != nil && p.IsRepoPkg(root.Pkg.Pkg.Path())
+		if inRepo && len(fn.Blocks) > 0 {
+			out[fn] = true
+		}
+		// do not wander through the whole dependency graph from non-repository code: follow
+		// dependency functions only one hop deep unless they lead back into the repository
+		// (callbacks are invoked by the dependency function that receives them).
+		if n := p.cg.Nodes[fn]; n != nil {
+			for _, e := range n.Out {
+				callee := e.Callee.Func
+				cr := callee
+				for cr != nil && cr.Parent() != nil {
+					cr = cr.Parent()
+				}
+				calleeInRepo := cr != nil && cr.Pkg != nil && p.IsRepoPkg(cr.Pkg.Pkg.Path())
+				if inRepo || calleeInRepo {
+					visit(callee)
+				}
+			}
+		}
+		// closures created here
+		for _, b := range fn.Blocks {
+			for _, in := range b.Instrs {
+				if mc, ok := in.(*ssa.MakeClosure); ok {
+					if f, ok := mc.Fn.(*ssa.Function); ok {
+						visit(f)
+					}
+				}
+			}
+		}
+	}
+	for _, r := range roots {
+		visit(r)
+	}
+	return out
 }
